@@ -21,6 +21,10 @@ func MergeFold(existing, operand []byte) []byte {
 	if len(operand) == 1 && operand[0] == '~' {
 		return []byte{} // the "clear" operand: the key stays, with an empty value
 	}
+	if len(operand) == 1 && operand[0] == '=' {
+		// the "keep" operand: the value stays (an absent key becomes an empty value)
+		return append([]byte{}, existing...)
+	}
 	out := make([]byte, 0, len(existing)+1+len(operand))
 	out = append(out, existing...)
 	out = append(out, '|')
